@@ -81,6 +81,7 @@ const (
 	ViolationReasonImageMissingInLockfile        ViolationReason = "Image specified in manifest but missing from lockfile. Try running: kubectl package update"                      //nolint: lll
 	ViolationReasonImageDifferentToLockfile      ViolationReason = "Image specified in manifest does not match with lockfile. Try running: kubectl package update"                   //nolint: lll
 	ViolationReasonInvalidCELExpression          ViolationReason = "The CEL expression in " + manifests.PackageCELConditionAnnotation + " annotation is invalid."                    //nolint: lll
+	ViolationReasonInvalidConditionMap           ViolationReason = "The " + manifests.PackageConditionMapAnnotation + " annotation is invalid."                                      //nolint: lll
 )
 
 var ErrEmptyPackage = ViolationError{
